@@ -1,5 +1,7 @@
 import AvoVerif.Props.C02
 import AvoVerif.Props.C02Term
+import AvoVerif.Props.C02UseDef
+import AvoVerif.Props.C02Accept
 #print axioms Avo.Live.liveness_exact
 #print axioms Avo.Live.liveout_exact
 #print axioms Avo.Live.liveness_order_irrelevant
@@ -16,3 +18,19 @@ import AvoVerif.Props.C02Term
 #print axioms Avo.Live.liveness_terminates
 #print axioms Avo.Live.liveness_exact_total
 #print axioms Avo.Live.iter_count
+#print axioms Avo.Live.liveout_exact_total
+#print axioms Avo.Live.liveness_fuel_irrelevant
+#print axioms Avo.UseDef.acceptUseDef_sound
+#print axioms Avo.UseDef.sameLanes_iff_mem
+#print axioms Avo.UseDef.mem_specWrites
+#print axioms Avo.UseDef.specReads_eq
+#print axioms Avo.UseDef.specReads_iff_of_not_cancels
+#print axioms Avo.UseDef.written_mem_address_read
+#print axioms Avo.UseDef.mem_address_read
+#print axioms Avo.UseDef.specReads_cancelling_pair
+#print axioms Avo.UseDef.other_operands_still_read
+#print axioms Avo.UseDef.cancelled_register_not_read
+#print axioms Avo.UseDef.different_registers_both_read
+#print axioms Avo.Live.acceptLive_sound
+#print axioms Avo.Live.acceptLive_sound_checked
+#print axioms Avo.Live.wf_of_wfb
